@@ -210,6 +210,23 @@ def main(argv=None) -> int:
     ap.add_argument("--replay")
     args = ap.parse_args(argv)
     prop = args.prop
+    # watchdog: a check that does not finish is an infrastructure failure (exit 2 after dumping every thread's stack), never a verdict
+    try:
+        import faulthandler
+        limit = int(os.environ.get("VERIF_WATCHDOG_S", "10800" if args.tier == "thorough" else "2400"))
+        if limit > 0:
+            faulthandler.dump_traceback_later(limit, exit=False)
+            import threading
+
+            def _bail():
+                sys.stderr.write(f"watchdog: {prop} did not finish within {limit}s\n")
+                sys.stderr.flush()
+                os._exit(2)
+            t = threading.Timer(limit + 2, _bail)
+            t.daemon = True
+            t.start()
+    except Exception:
+        pass
     common.scratch()
     common.use_repo_src()
     import logging
